@@ -1137,6 +1137,12 @@ func (a *txnAnalyzer) checkAppliedGuard(r *Result, s *txnSite) {
 		return
 	}
 	p := a.p
+	// a rollback that only forwards to a declared helper (`return c.rollbackX(ctx, …, failureByCond, applied)`) is analysed
+	// in the helper: its parameters stand for the arguments handed in
+	argOf := map[types.Object]types.Object{}
+	if tgt, tflag, m := forwardTarget(p, rb, flag); tgt != nil {
+		rb, flag, argOf = tgt, tflag, m
+	}
 	rb.inspectBody(func(n ast.Node) bool {
 		is, ok := n.(*ast.IfStmt)
 		if !ok || !rb.usesObj(is.Cond, flag) {
@@ -1164,6 +1170,9 @@ func (a *txnAnalyzer) checkAppliedGuard(r *Result, s *txnSite) {
 				continue
 			}
 			o := rb.objOf(id)
+			if m, ok := argOf[o]; ok {
+				o = m
+			}
 			// assigned true exactly once, in cond, after an `if err != nil { return … }`
 			nTrue, afterCheck := 0, false
 			cond.inspectBody(func(x ast.Node) bool {
@@ -1276,4 +1285,59 @@ func checkFanoutErrors(p *Prog, r *Result, rule string) {
 	if n == 0 {
 		r.undecided(rule, "resource/cobalt fan-out callbacks", "", "none found")
 	}
+}
+
+// forwardTarget: when fn does not branch on `flag` itself but hands it to exactly one declared function of the program,
+// the callee, the callee's parameter that receives the flag, and for every callee parameter bound to a plain identifier
+// argument the object of that argument.
+func forwardTarget(p *Prog, fn *FuncNode, flag types.Object) (*FuncNode, types.Object, map[types.Object]types.Object) {
+	if fn == nil || fn.Body == nil || flag == nil {
+		return nil, nil, nil
+	}
+	branches := false
+	var fwd []*ast.CallExpr
+	fn.inspectBody(func(n ast.Node) bool {
+		switch x := n.(type) {
+		case *ast.IfStmt:
+			if fn.usesObj(x.Cond, flag) {
+				branches = true
+			}
+		case *ast.CallExpr:
+			for _, a := range x.Args {
+				if fn.objOf(a) == flag {
+					fwd = append(fwd, x)
+				}
+			}
+		}
+		return true
+	})
+	if branches || len(fwd) != 1 {
+		return nil, nil, nil
+	}
+	callee := fn.Callee(fwd[0])
+	if callee == nil {
+		return nil, nil, nil
+	}
+	tgt := p.ByObj[callee]
+	if tgt == nil || tgt.Body == nil {
+		return nil, nil, nil
+	}
+	m := map[types.Object]types.Object{}
+	var tflag types.Object
+	for i, a := range fwd[0].Args {
+		po := tgt.paramObj(i)
+		if po == nil {
+			continue
+		}
+		if ao := fn.objOf(a); ao != nil {
+			m[po] = ao
+			if ao == flag {
+				tflag = po
+			}
+		}
+	}
+	if tflag == nil {
+		return nil, nil, nil
+	}
+	return tgt, tflag, m
 }
